@@ -113,6 +113,17 @@ CLAIMED = {
         note=LP_NOTE + " processes=1 in this check (C14 varies the process count).",
         technique="Lean 4 proof (combination / task / filter logic over the Core and LP layers) + certified differential testing of every row",
         design="DESIGN.md section 5, C06"),
+    "C18": dict(
+        engine="lp",
+        text="Lean 4: pure model of Model.medium — set_active_bound sets the import bound and leaves the export bound (setActive_spec), an unlisted "
+             "exchange has its import closed (closeImport_spec), and for every exchange list and dictionary getMedium (setMedium exs med) is exactly "
+             "the listed entries with positive import (get_set); the import of an exchange is its reverse/forward split variable "
+             "(import_is_split_variable). The real setter/getter are compared with an independent description of the expected bounds; "
+             "minimal_medium's total import / number of components with optima certified by the proved LP checker (subset enumeration with certified "
+             "feasibility / infeasibility), sufficiency by re-solving with the returned imports, None exactly when certified infeasible.",
+        note=LP_NOTE + " Components below 1e-3 are not counted (documented detection limit of the MIP formulation).",
+        technique="Lean 4 proof (getter/setter model) + certified differential testing of minimal_medium",
+        design="DESIGN.md section 5, C18"),
 }
 
 PENDING_REASON = "check under construction in this session (see DESIGN.md section 9 build order); not claimed until its Lean model, theorems and correspondence exist"
@@ -151,7 +162,7 @@ def main():
              "kind_free_text": "Lean model DLM + theorems (lean/CobraModel/{Model,Lemmas,Props}) and op-sequence correspondence against cobra.core.DictList"},
             {"name": "core", "path": "harness/core_engine.py", "serves_properties": ["C01", "C02", "C03", "C07"],
              "kind_free_text": "Lean Core model (content + solver + undo stack as functions over ids), theorems in Props/C01,C02,C03,C07, traces on the real model with raw GLPK read-out"},
-            {"name": "lp", "path": "harness/lpcert.py", "serves_properties": ["C04", "C05", "C06", "C09"],
+            {"name": "lp", "path": "harness/lpcert.py", "serves_properties": ["C04", "C05", "C06", "C09", "C18"],
              "kind_free_text": "Lean LP model + proved certificate checker (Model/LP.lean, Lemmas/LP.lean), untrusted exact simplex, constructive FBA instance generator"},
             {"name": "gpr", "path": "harness/c08.py", "serves_properties": ["C08"],
              "kind_free_text": "Lean model GPRM (rule trees, parser, remover) + generated escape tables + correspondence against cobra.core.gene.GPR"},
